@@ -157,7 +157,9 @@ def gen_desc(rng, fields, depth=2, nfields=(1, 5), rules_ok=0.95, order_p=0.3, b
         if t == "map[string]*jsonschema.Schema":
             if r < empty_p:
                 return []
-            ks = rng.sample(gs.NAMES + (gs.PATTERNS[:3] if name == "PatternProperties" else ["e", "zz"]), rng.randint(1, 3))
+            exotic = [] if name == "PatternProperties" or rng.random() < 0.8 else \
+                ["a\u0001b", "\u007f", "v\u000bt", "\U0001F600", "tab\t", "q\"uote", "back\\slash", "<>&", "\u2028", "\u0000", "\u001b[0m", "\U000E0001"]
+            ks = rng.sample(gs.NAMES + (gs.PATTERNS[:3] if name == "PatternProperties" else ["e", "zz"]) + exotic, rng.randint(1, 3))
             if name == "PatternProperties":
                 ks = rng.sample(gs.PATTERNS, rng.randint(1, 2))
             out = [[k, child(d)] for k in ks]
